@@ -48,5 +48,16 @@ func shapeTemplates(rng *rand.Rand) string {
 	fmt.Fprintf(&b, "func F%d(n int) int {\n\tvar fs []func() int\n\tfor i := 0; i < n&3; i++ {\n\t\tfs = append(fs, func() int { return i * %d })\n\t\ti += %d\n\t}\n\ts := 0\n\tfor _, f := range fs {\n\t\ts += f()\n\t}\n\treturn s\n}\n\n", next(), k(), rng.IntN(2))
 	// 7. parallel assignment / swap through pointers to locals declared in a loop
 	fmt.Fprintf(&b, "func F%d(n int) int {\n\ts := 0\n\tfor i := 0; i < n&3; i++ {\n\t\ta, b := i, i+%d\n\t\tpa, pb := &a, &b\n\t\tfor j := 0; j < 2; j++ {\n\t\t\t*pa, *pb = *pb, *pa+%d\n\t\t\ta, b = b, a\n\t\t}\n\t\ts += a*10 + b\n\t}\n\treturn s\n}\n\n", next(), k(), k())
+	// 8. panics, deferred calls and recover against results: a return statement stores the
+	// results BEFORE the deferred calls run, so a panic raised by a deferred call and
+	// recovered by an earlier-registered one leaves the stored values (named or not) in
+	// place, while a panic in the body leaves the zero value / what was assigned so far
+	b.WriteString("func tplSwallow() { recover() }\n\nfunc tplBoom(k int) {\n\tif k > 0 {\n\t\tpanic(\"boom\")\n\t}\n}\n\n")
+	fmt.Fprintf(&b, "func F%d(x int) int {\n\tdefer tplSwallow()\n\tif x&3 > %d {\n\t\tdefer tplBoom(x & 1)\n\t\treturn x + %d\n\t}\n\treturn -1\n}\n\n", next(), rng.IntN(2), k())
+	fmt.Fprintf(&b, "func F%d(x int) (int, bool) {\n\tdefer func() { recover() }()\n\tif x&1 == %d {\n\t\tdefer tplBoom(1)\n\t\treturn x * %d, true\n\t}\n\treturn 0, false\n}\n\n", next(), rng.IntN(2), 1+k())
+	fmt.Fprintf(&b, "func F%d(x int) (r int) {\n\tdefer tplSwallow()\n\tdefer func() {\n\t\tr += %d\n\t\ttplBoom(x & 1)\n\t\tr += 100\n\t}()\n\treturn x + %d\n}\n\n", next(), k(), k())
+	fmt.Fprintf(&b, "func F%d(x int) int {\n\tdefer tplSwallow()\n\tif x&1 == %d {\n\t\ttplBoom(1)\n\t}\n\treturn x + %d\n}\n\n", next(), rng.IntN(2), k())
+	fmt.Fprintf(&b, "func F%d(x int) int {\n\tdefer tplSwallow()\n\ty := x + %d\n\tdefer func() {\n\t\ty++\n\t\ttrace(4, y)\n\t\ttplBoom(x & 2)\n\t}()\n\treturn y\n}\n\n", next(), k())
+	fmt.Fprintf(&b, "func F%d(x int) (s string, n int) {\n\tdefer tplSwallow()\n\tfor i := 0; i < x&3; i++ {\n\t\tdefer tplBoom(i - %d)\n\t\tn += i\n\t}\n\tif n > 1 {\n\t\treturn \"big\", n\n\t}\n\ts = \"small\"\n\treturn\n}\n\n", next(), rng.IntN(2))
 	return b.String()
 }
